@@ -122,3 +122,27 @@ def run(ctx):
                               "bytes can be lost silently when the writer is dropped")
     ctx.note("%d destination write site(s)" % nwrites)
     ctx.finish_rule()
+
+    ctx.rule("C08.R4", "success is only reported after the image has been written", floor=1)
+    # every Ok(..) return of the compile arm lies behind a write to the destination: no shortcut ("up to date", "nothing to do")
+    # may report success while the destination holds something else than the complete new image
+    errb = kit.error_blocks(main)
+    okrets = [b for b, i, s in main.assigns() if b in region and b not in errb and s["p"]["l"] == 0 and not s["p"].get("pr")
+              and s["r"]["k"] == "agg" and s["r"].get("variant") == "Ok"]
+    wr = set()
+    for b, t, c in main.calls():
+        if b in region and is_write(c):
+            aty = (t.get("arg_tys") or [""])[0]
+            if not ("Stdout" in aty or "Stderr" in aty or "Formatter" in aty or "String" in aty):
+                wr.add(b)
+    ctx.need(okrets, "Ok(..) return in the compile arm")
+    ctx.instance(1, {"success returns": len(okrets), "write sites": len(wr)})
+    dodge = [b for b in okrets if b in main.reachable(entry, avoid=wr)] if wr else okrets
+    ctx.oblig(not dodge, None)
+    for b in dodge:
+        p = main.path(entry, {b}, avoid=wr)
+        ctx.violation("success-without-write", sp_file_line(main.stmts(b)[0].get("sp") if main.stmts(b) else main.term(b).get("sp")),
+                      "the compile arm can return Ok without having written the destination (path lines %s): success is reported although the destination "
+                      "is not (known to be) the complete object file" % main.path_lines(p))
+    ctx.finish_rule()
+
